@@ -164,7 +164,8 @@ def body(ctx, case):
             cur = 0
             snap = _snapshot(arrays)
             for name, v in snap.items():
-                ctx.check(not np.any(v != 0), f"{what}: {name} is not zero after reset", float(np.abs(v).max()), 0.0)
+                ctx.check(not np.any(v != 0), f"{what}: {name} is not zero after reset",
+                          float(np.abs(v).max()) if v.size else 0.0, 0.0)
         compare(arrays, cur, what)
         mats = _materials(arrays)
         for nm, ref in mats0.items():
